@@ -102,7 +102,7 @@ def run(rec, tier, seed):
     rnd = random.Random(seed)
     nmax = 5 if tier == 'quick' else 6
     variants = [dict(terms=True, coeffs=True, extra=True, cell='ortho'), dict(terms=True, coeffs=False, extra=False, cell='tri'),
-                dict(terms=False, coeffs=True, extra=True, cell=None)]
+                dict(terms=False, coeffs=True, extra=True, cell=None), dict(terms=True, coeffs=True, extra=True, cell='ortho', dup=True)]
     # every present / absent mixture of the four term kinds
     import itertools as _it
     allk = ['bond', 'angle', 'dihedral', 'improper']
@@ -132,7 +132,7 @@ def run(rec, tier, seed):
                     rec.fail('delete', 'pop', "pop(%s) on %r: %s" % (', '.join(map(str, args)), spec, msg), {'spec': spec, 'idx': list(args), 'via': 'pop'}, 'C10/pop/post')
     # larger structures (not exhaustive): half or more of 9-14 atoms deleted, index lists in random order
     for n in (9, 11, 14):
-        for vi, var in enumerate(variants[:3]):
+        for vi, var in enumerate(variants[:4]):
             spec = dict(n=n, seed=vi, **var)
             for trial in range(4 if tier == 'quick' else 16):
                 k = rnd.randrange(n // 2, n - 1)
@@ -141,4 +141,18 @@ def run(rec, tier, seed):
                 rec.case(('del-large', n, vi, tuple(idx)), group='delitem-large')
                 if msg:
                     rec.fail('delete', 'delitem', "del a[%r] on %r: %s" % (list(idx), spec, msg), {'spec': spec, 'idx': list(idx)}, 'C10/__delitem__/post')
-    rec.bounds = {'max_atoms_exhaustive': nmax, 'max_atoms_sampled': 14, 'variants': len(variants)}
+    # a large, sparsely bonded structure (terms on one small fragment only) with many deleted atoms spread over the whole index range
+    for vi, var in enumerate(variants[:2] + variants[3:4]):
+        for n in (260, 400):
+            spec = dict(n=n, seed=vi, **var)
+            for trial in range(2 if tier == 'quick' else 8):
+                k = rnd.randrange(13, 25)
+                idx = [6 + (n - 7) * j // (k - 1) for j in range(k)]
+                if trial % 2:
+                    idx = idx + [rnd.choice([0, 2, 5])]
+                    rnd.shuffle(idx)
+                msg = check_delete(spec, tuple(idx))
+                rec.case(('del-sparse', n, vi, tuple(idx)), group='delitem-large')
+                if msg:
+                    rec.fail('delete', 'delitem', "del a[%r] on %r: %s" % (list(idx), spec, msg), {'spec': spec, 'idx': list(idx)}, 'C10/__delitem__/post')
+    rec.bounds = {'max_atoms_exhaustive': nmax, 'max_atoms_sampled': 400, 'variants': len(variants)}
